@@ -1,4 +1,5 @@
 import PebblesVerif.Model.QueryBatch
+import PebblesVerif.Gen.FindSelection
 /-!
 Model of `executor.FindInsertionPoints` (executor/result.go:94-277) with `FindSelection`
 (executor/selection_set.go) and `extractID`, on `J` values, for the way the executor calls it:
@@ -33,16 +34,51 @@ structure Found where
   sub : List Sel
 
 mutual
-  /-- `FindSelection`: depth-first search by response name over the whole step -/
-  def findSel (m : String) : Sel → Option Found
-    | .field k l n sub => if k = m then some ⟨l, n, sub⟩ else findSelL m sub
-    | .frag sub => findSelL m sub
-  def findSelL (m : String) : List Sel → Option Found
+  /-- `FindSelection` before the repair: depth-first search by response name over the whole step -/
+  def findSelDF (m : String) : Sel → Option Found
+    | .field k l n sub => if k = m then some ⟨l, n, sub⟩ else findSelDFL m sub
+    | .frag sub => findSelDFL m sub
+  def findSelDFL (m : String) : List Sel → Option Found
     | [] => none
-    | s :: rest => match findSel m s with
+    | s :: rest => match findSelDF m s with
       | some r => some r
-      | none => findSelL m rest
+      | none => findSelDFL m rest
 end
+
+mutual
+  /-- first loop of `FindSelection`: the fields of this level (inline fragments flattened) -/
+  def findLevelS (m : String) : Sel → Option Found
+    | .field k l n sub => if k = m then some ⟨l, n, sub⟩ else none
+    | .frag sub => findLevelL m sub
+  def findLevelL (m : String) : List Sel → Option Found
+    | [] => none
+    | s :: rest => match findLevelS m s with
+      | some r => some r
+      | none => findLevelL m rest
+end
+
+mutual
+  /-- second loop: below each field of this level, in order, again level first -/
+  def findDeepS (m : String) : Sel → Option Found
+    | .field _ _ _ sub => match findLevelL m sub with
+      | some r => some r
+      | none => findDeepL m sub
+    | .frag sub => findDeepL m sub
+  def findDeepL (m : String) : List Sel → Option Found
+    | [] => none
+    | s :: rest => match findDeepS m s with
+      | some r => some r
+      | none => findDeepL m rest
+end
+
+/-- `executor.FindSelection`: level first after the repair (regenerated fact
+    `Gen.FindSelection.levelFirst`), depth first before it -/
+def findSelL (m : String) (ss : List Sel) : Option Found :=
+  if Gen.FindSelection.levelFirst then
+    match findLevelL m ss with
+    | some r => some r
+    | none => findDeepL m ss
+  else findSelDFL m ss
 
 /-- ordered insertion of a key for Go's `%v` of a map (keys sorted) -/
 def insertSorted (kv : String × String) : List (String × String) → List (String × String)
